@@ -326,7 +326,7 @@ func (g *docgen) rawElement() {
 	var sb strings.Builder
 	hasTmpl := false
 	for k := rapid.IntRange(0, 5).Draw(t, "rawn"); k > 0; k-- {
-		p := rapid.SampledFrom([]string{"x", " ", "\n", "<b>", "</b>", "<", "</", "</" + n + "x", "</ " + n + ">", "< /" + n + ">", "</" + n[:len(n)-1], "</" + n[:len(n)-1] + ">", "</other>", "'", "\"", "&amp;", "é", "var a = '<p>';", "ESC", "ESC", "ESC", "REGION", "REGION", "<!-", "-->"}).Draw(t, "rawpart")
+		p := rapid.SampledFrom([]string{"x", " ", "\n", "<b>", "</b>", "<", "</", "</" + n + "x", "</ " + n + ">", "< /" + n + ">", "</" + n[:len(n)-1], "</" + n[:len(n)-1] + ">", "</other>", "'", "\"", "&amp;", "é", "var a = '<p>';", "ESC", "ESC", "ESC", "REGION", "REGION", "<!-", "-->", "<script>", "<SCRIPT x>", "--", "-"}).Draw(t, "rawpart")
 		switch p {
 		case "ESC":
 			if n != "script" {
@@ -337,7 +337,7 @@ func (g *docgen) rawElement() {
 			sb.WriteString("\x02") // placeholder for "<!--", restored after stray openers have been defused
 			in := false
 			for j := rapid.IntRange(0, 4).Draw(t, "escn"); j > 0; j-- {
-				q := rapid.SampledFrom([]string{" x ", "<" + randCase(t, "script") + ">", "<script ", "</" + randCase(t, "script") + ">", "<b>", "</scriptx>", "\n"}).Draw(t, "escpart")
+				q := rapid.SampledFrom([]string{" x ", "<" + randCase(t, "script") + ">", "<script ", "</" + randCase(t, "script") + ">", "<b>", "</scriptx>", "\n", "- ", "-- ", "--x>", "-x->"}).Draw(t, "escpart")
 				if strings.HasPrefix(lower(q), "<script") {
 					in = true
 				} else if strings.HasPrefix(lower(q), "</script>") {
@@ -348,7 +348,8 @@ func (g *docgen) rawElement() {
 				}
 				sb.WriteString(q)
 			}
-			sb.WriteString("-->")
+			// any run of two or more dashes followed by > closes the escape
+			sb.WriteString(rapid.SampledFrom([]string{"-->", "-->", "--->", "---->", "- -->", "--x--->"}).Draw(t, "esccloser"))
 			g.classes["script-escape"]++
 		case "REGION":
 			if g.tmpl[0] != "" {
@@ -386,8 +387,14 @@ func (g *docgen) foreign() {
 		sb.WriteString(rapid.SampledFrom([]string{` width="1"`, ` a="</` + n + `>"`, ` b='x'`, ` viewBox="0 0 1 1"`, ` c`, ` d="</SVG>"`}).Draw(t, "fa"))
 	}
 	sb.WriteString(">")
+	other := "math"
+	if n == "math" {
+		other = "svg"
+	}
 	for k := rapid.IntRange(0, 4).Draw(t, "fn"); k > 0; k-- {
-		sb.WriteString(rapid.SampledFrom([]string{"<path d=\"M0 0\"/>", "<g>", "</g>", "text", "<title>t</title>", "<a x=\"</" + n + ">\"/>", "</" + n + "x>", "<!-- c -->", "\n", "<mi>x</mi>", "</other>"}).Draw(t, "fpart"))
+		// the subtree ends at the end tag of ITS kind only: the other foreign kind may be nested inside (annotation-xml, foreignObject)
+		sb.WriteString(rapid.SampledFrom([]string{"<path d=\"M0 0\"/>", "<g>", "</g>", "text", "<title>t</title>", "<a x=\"</" + n + ">\"/>", "</" + n + "x>", "<!-- c -->", "\n", "<mi>x</mi>", "</other>",
+			"<" + other + ">", "</" + other + ">", "</" + strings.ToUpper(other) + " >", "<foreignObject><" + other + "></" + other + "></foreignObject>", "</xml>"}).Draw(t, "fpart"))
 	}
 	sb.WriteString("</" + randCase(t, n) + wsp(t, 0) + ">")
 	src := sb.String()
@@ -435,6 +442,12 @@ func genDoc(t *rapid.T, tmpl [2]string) *docgen {
 		case "foreign":
 			g.foreign()
 		case "template":
+			if g.last != "text" && rapid.IntRange(0, 3).Draw(t, "ltbefore") == 0 {
+				// a lone "<" that ends a text run, with the template directly behind it
+				txt := rapid.SampledFrom([]string{"a <", "<", "1 <", "x<<", "a < <"}).Draw(t, "lttext")
+				g.add(tok{html.TextToken, txt, txt, noVal, false})
+				g.classes["text-lt-template"]++
+			}
 			g.templateNode()
 		}
 	}
